@@ -2,6 +2,7 @@ import MaestroVerif.Model.Expand
 import MaestroVerif.Lemmas.SubstLemmas
 import MaestroVerif.Lemmas.CsvLemmas
 import MaestroVerif.Lemmas.ExpandPlace
+import MaestroVerif.Lemmas.ExpandAdj
 
 /-!
 # C08 — Parameter expansion creates exactly the right instances and edges
@@ -344,6 +345,25 @@ theorem C08_unparameterised_depends_exactly (spec : Spec) {ord : List Str → Li
     · intro k hk x
       exact p2 k hk x
 
+/-- **the adjacency table gets the same edges**: placing an instance makes it a child of exactly
+the parents it was wired to and changes no other child list -/
+theorem C08_children_exact {ord : List Str → List Str} (ho : IsPermOracle ord) (s s' : SS) (inst : Inst)
+    (isRoot : Bool) (parents hubD : List Str) (h : place ord s inst isRoot parents hubD = .ok s') :
+    ∀ k x, x ∈ getAssoc s'.g.adj k ↔
+      (x ∈ getAssoc s.g.adj k ∨
+        (x = inst.name ∧ wiredTo isRoot parents hubD s.combos k ∧ k ≠ inst.name)) :=
+  place_adj_exact ho s s' inst isRoot parents hubD h
+
+/-- **edges are recorded consistently in both tables**: for a new instance name, `p` is in the
+instance's dependency set (what gates its launch, C01) exactly when the instance is in `p`'s
+child list (what failure propagation and the status listing walk, C02 / C12) -/
+theorem C08_edges_recorded_consistently {ord : List Str → List Str} (ho : IsPermOracle ord)
+    (s s' : SS) (inst : Inst) (isRoot : Bool) (parents hubD : List Str)
+    (h : place ord s inst isRoot parents hubD = .ok s')
+    (hfresh : ∀ k, inst.name ∉ getAssoc s.g.adj k) (p : Str) (hp : p ≠ inst.name) :
+    p ∈ getAssoc s'.g.deps inst.name ↔ inst.name ∈ getAssoc s'.g.adj p :=
+  place_edges_consistent ho s s' inst isRoot parents hubD h hfresh p hp
+
 /-- the table the funnel edges are read from records the instances of a step as they are created -/
 theorem C08_combos_record (spec : Spec) (ord : List Str → List Str) (st : Step) (used : List Str)
     (s s' : SS) (row : Nat)
@@ -386,6 +406,8 @@ example : (match stage demoSpec id with
         && getAssoc r.deps "run_SIZE.10".toList == ["pre".toList]
         && getAssoc r.deps "post".toList == ["pre".toList, "run_SIZE.10".toList, "run_SIZE.20".toList]
         && (r.insts.map (·.params)) == [[], [("SIZE".toList, "10".toList)], [("SIZE".toList, "20".toList)], []]
+        && getAssoc r.adj "pre".toList == ["run_SIZE.10".toList, "run_SIZE.20".toList, "post".toList]
+        && getAssoc r.adj "run_SIZE.20".toList == ["post".toList]
     | .error _ => false) = true := by decide +kernel
 
 end MaestroVerif.C08
